@@ -190,6 +190,8 @@ class Ctx(object):
             what = [f["what"] for f in self.known if f["id"] == fid][0]
             print("KNOWN-FINDING: property=%s %s [%s; hit %d times]" % (self.pid, what, fid, n))
         import collections
+        with open(os.path.join(OUT, "violations-%s.json" % self.pid), "w") as fh:
+            json.dump([{"module": v["module"], "kind": v["kind"], "args": v["args"]} for v in self.violations], fh, default=_jsonable)
         kinds = collections.Counter((v["module"], v["kind"]) for v in self.violations)
         for (m, k), n in kinds.most_common(12):
             print("  violation-class module=%s kind=%s count=%d" % (m, k, n))
